@@ -322,6 +322,12 @@ func VH04a_resend() {
 	lab := "C04/resend"
 	sock := vp.New("req")
 	verif.Assert(sock.SetOption(mangos.OptionRetryTime, retry) == nil, lab+"/set-retry")
+	// with or without fail-no-peers: the option only matters when the LAST peer leaves (the waiting Recv then fails
+	// with the no-peers error and the request is over); while another peer is connected everything is as without it
+	fnp := verif.Param("fnp", 0) == 1 && verif.Choice("fail-no-peers", 2) == 1
+	if fnp {
+		verif.Assert(sock.SetOption(mangos.OptionFailNoPeers, true) == nil, lab+"/set-fail-no-peers")
+	}
 	side := vt.Listen(sock, "a")
 	vt.ChooseErrors() // lost connections report ErrClosed or the raw reset error
 	pipes := []*vt.Pipe{side.Peer("p0")}
@@ -407,6 +413,11 @@ func VH04a_resend() {
 			if !p.Closed {
 				live++
 			}
+		}
+		if fnp && live == 0 && !finished {
+			verif.Assert(rg.Done() && rerr == mangos.ErrNoPeers, lab+"/recv-not-failed-with-no-peers-when-the-last-peer-left")
+			finished = true
+			verif.Reach("ended-by-no-peers")
 		}
 		// 1. byte-identical
 		for _, t := range tx {
